@@ -33,6 +33,7 @@ import (
 	"verif/harness/props/c14"
 	"verif/harness/props/c15"
 	"verif/harness/props/c17"
+	"verif/harness/props/c18"
 	"verif/harness/props/c19"
 	csdrv "verif/harness/props/coinswap"
 	farmdrv "verif/harness/props/farm"
@@ -255,11 +256,11 @@ func merge(fns ...mc.QueryFn) mc.QueryFn {
 }
 
 type spec struct {
-	name   string
-	mk     func() (*mc.Env, mc.Driver)
-	rt     mc.RoundTripSpec
-	q, t   int
-	txSeq  bool
+	name  string
+	mk    func() (*mc.Env, mc.Driver)
+	rt    mc.RoundTripSpec
+	q, t  int
+	txSeq bool
 }
 
 func wrap(s spec) func() (*mc.Env, mc.Driver) {
@@ -281,9 +282,81 @@ func find[T any](vs []T, name func(T) string, want string) T {
 	panic("variant " + want + " not found")
 }
 
+func auth() string { return mc.Authority().String() }
+
+// parameter changes by governance, offered in every state of the respective driver
+var (
+	govFarm = []mc.GovOp{
+		{Name: "farm(max_reward_categories=1)", Msg: func(e *mc.Env, ctx sdk.Context) sdk.Msg {
+			p := e.Farm.GetParams(ctx)
+			p.MaxRewardCategories = 1
+			return &farmtypes.MsgUpdateParams{Authority: auth(), Params: p}
+		}},
+		{Name: "farm(tax_rate=1,fee=1)", Msg: func(e *mc.Env, ctx sdk.Context) sdk.Msg {
+			p := e.Farm.GetParams(ctx)
+			p.TaxRate = sdkmath.LegacyOneDec()
+			p.PoolCreationFee = sdk.NewInt64Coin(p.PoolCreationFee.Denom, 1)
+			return &farmtypes.MsgUpdateParams{Authority: auth(), Params: p}
+		}},
+	}
+	govHTLC = []mc.GovOp{
+		{Name: "htlc(first asset: limits lowered to 1)", Msg: func(e *mc.Env, ctx sdk.Context) sdk.Msg {
+			p := e.HTLC.GetParams(ctx)
+			if len(p.AssetParams) == 0 {
+				return nil
+			}
+			p.AssetParams[0].SupplyLimit.Limit = sdkmath.OneInt()
+			p.AssetParams[0].SupplyLimit.TimeBasedLimit = sdkmath.OneInt()
+			return &htlctypes.MsgUpdateParams{Authority: auth(), Params: p}
+		}},
+		{Name: "htlc(first asset: inactive)", Msg: func(e *mc.Env, ctx sdk.Context) sdk.Msg {
+			p := e.HTLC.GetParams(ctx)
+			if len(p.AssetParams) == 0 {
+				return nil
+			}
+			p.AssetParams[0].Active = false
+			return &htlctypes.MsgUpdateParams{Authority: auth(), Params: p}
+		}},
+		{Name: "htlc(last asset removed)", Msg: func(e *mc.Env, ctx sdk.Context) sdk.Msg {
+			p := e.HTLC.GetParams(ctx)
+			if len(p.AssetParams) < 2 {
+				return nil
+			}
+			p.AssetParams = p.AssetParams[:len(p.AssetParams)-1]
+			return &htlctypes.MsgUpdateParams{Authority: auth(), Params: p}
+		}},
+	}
+	govService = []mc.GovOp{
+		{Name: "service(max_request_timeout=1)", Msg: func(e *mc.Env, ctx sdk.Context) sdk.Msg {
+			p := e.Service.GetParams(ctx)
+			p.MaxRequestTimeout = 1
+			return &svctypes.MsgUpdateParams{Authority: auth(), Params: p}
+		}},
+		{Name: "service(min_deposit x1000)", Msg: func(e *mc.Env, ctx sdk.Context) sdk.Msg {
+			p := e.Service.GetParams(ctx)
+			for i := range p.MinDeposit {
+				p.MinDeposit[i].Amount = p.MinDeposit[i].Amount.MulRaw(1000)
+			}
+			p.MinDepositMultiple = p.MinDepositMultiple * 1000
+			return &svctypes.MsgUpdateParams{Authority: auth(), Params: p}
+		}},
+	}
+	govToken = []mc.GovOp{
+		{Name: "token(tax=0,mint_ratio=1,base_fee=1)", Msg: func(e *mc.Env, ctx sdk.Context) sdk.Msg {
+			p := e.Token.GetParams(ctx)
+			p.TokenTaxRate = sdkmath.LegacyZeroDec()
+			p.MintTokenFeeRatio = sdkmath.LegacyOneDec()
+			p.IssueTokenBaseFee = sdk.NewInt64Coin(p.IssueTokenBaseFee.Denom, 1)
+			return &tokenv1.MsgUpdateParams{Authority: auth(), Params: p}
+		}},
+	}
+)
+
 func specs() []spec {
 	farmV := farmdrv.Variant{Name: "creator-ops", Farmers: []string{"A", "B"}, StakeAmts: []int64{1, 3},
 		RPB: sdk.NewCoins(mc.C("eth", 3)), Total: sdk.NewCoins(mc.C("eth", 20)), Creator: true, Mode: "C12"}
+	farmTwo := farmdrv.Variant{Name: "two-denoms", Farmers: []string{"A", "B"}, StakeAmts: []int64{2},
+		RPB: sdk.NewCoins(mc.C("eth", 2), mc.C("btc", 3)), Total: sdk.NewCoins(mc.C("eth", 11), mc.C("btc", 10)), Mode: "C12"}
 	farmBig := farmdrv.Variant{Name: "big-stake", Farmers: []string{"A"}, StakeAmts: []int64{1},
 		RPB: sdk.NewCoins(mc.C("eth", 1)), Total: sdk.NewCoins(mc.C("eth", 7)), BigStake: true, Mode: "C12"}
 	c09v := find(c09.Variants(), func(v c09.Variant) string { return v.Name }, "cap-scale1")
@@ -294,18 +367,21 @@ func specs() []spec {
 		{name: "coinswap", mk: csdrv.New(csdrv.Variant{Name: "small", Mode: "C12", Std1: sdkmath.NewInt(10007), Tok1: sdkmath.NewInt(1003), Std2: sdkmath.NewInt(5003), Tok2: sdkmath.NewInt(997),
 			Amts: []sdkmath.Int{sdkmath.NewInt(1), sdkmath.NewInt(7), sdkmath.NewInt(640)}, Params: true}), rt: mc.RoundTripSpec{Modules: []string{"coinswap"}, Query: qCoinswap}, q: 2, t: 3},
 		{name: "farm", mk: farmdrv.New(farmV), rt: mc.RoundTripSpec{Modules: []string{"coinswap", "farm"}, Query: merge(qCoinswap, qFarm)}, q: 4, t: 6},
+		{name: "farm-two-denoms-gov", mk: farmdrv.New(farmTwo), rt: mc.RoundTripSpec{Modules: []string{"coinswap", "farm"}, Query: merge(qCoinswap, qFarm), Gov: govFarm}, q: 4, t: 5},
 		{name: "farm-big-stake", mk: farmdrv.New(farmBig), rt: mc.RoundTripSpec{Modules: []string{"coinswap", "farm"}, Query: merge(qCoinswap, qFarm)}, q: 4, t: 6},
 		{name: "htlc-plain", mk: htlcdrv.New(htlcdrv.Variant{Name: "plain", Mode: "C12"}), rt: mc.RoundTripSpec{Modules: []string{"htlc"}, IDs: idsHTLC, Query: qHTLC,
 			Prep: func(e *mc.Env, ctx sdk.Context) { htlc.PrepForZeroHeightGenesis(ctx, e.HTLC) }}, q: 4, t: 6},
-		{name: "htlc-cross-chain", mk: htlcdrv.New(htlcdrv.Variant{Name: "cross-chain", Mode: "C12", Cross: true}), rt: mc.RoundTripSpec{Modules: []string{"htlc"}, IDs: idsHTLC, Query: qHTLC,
+		{name: "htlc-cross-chain", mk: htlcdrv.New(htlcdrv.Variant{Name: "cross-chain", Mode: "C12", Cross: true}), rt: mc.RoundTripSpec{Modules: []string{"htlc"}, IDs: idsHTLC, Query: qHTLC, Gov: govHTLC,
 			Prep: func(e *mc.Env, ctx sdk.Context) { htlc.PrepForZeroHeightGenesis(ctx, e.HTLC) }}, q: 4, t: 5},
-		{name: "token", mk: c09.New(c09v), rt: mc.RoundTripSpec{Modules: []string{"token"}, Query: qToken}, q: 4, t: 5},
+		{name: "token", mk: c09.New(c09v), rt: mc.RoundTripSpec{Modules: []string{"token"}, Query: qToken, Gov: govToken}, q: 4, t: 5},
 		{name: "nft", mk: c14.New(c14.Variants()[1]), rt: mc.RoundTripSpec{Modules: []string{"nft"}, Query: qNFT}, q: 3, t: 4},
 		{name: "mt-ledger", mk: c15.New(c15.Variants()[0]), rt: mc.RoundTripSpec{Modules: []string{"mt"}, Query: qMT, UnorderedArrays: map[string]bool{"mt": true}}, q: 3, t: 4},
 		{name: "mt-classes", mk: c15.New(c15.Variants()[1]), rt: mc.RoundTripSpec{Modules: []string{"mt"}, Query: qMT, UnorderedArrays: map[string]bool{"mt": true}}, q: 4, t: 5},
 		{name: "service", mk: svcdrv.New(svcdrv.Variant{Name: "fees", Mode: "C12", Tmpl: []string{"one", "rep"}, Withdraw: true}),
-			rt: mc.RoundTripSpec{Modules: []string{"service"}, IDs: idsService, Query: qService,
+			rt: mc.RoundTripSpec{Modules: []string{"service"}, IDs: idsService, Query: qService, Gov: govService,
 				Prep: func(e *mc.Env, ctx sdk.Context) { service.PrepForZeroHeightGenesis(ctx, e.Service) }}, q: 4, t: 6, txSeq: true},
+		{name: "random", mk: c18.New(c18.QueueVariant()), rt: mc.RoundTripSpec{Modules: []string{"random"}, Query: qRandom,
+			Prep: func(e *mc.Env, ctx sdk.Context) { random.PrepForZeroHeightGenesis(ctx, e.Random) }}, q: 4, t: 5, txSeq: true},
 		{name: "oracle-history", mk: c17.New(c17h), rt: mc.RoundTripSpec{Modules: []string{"service", "oracle"}, IDs: idsService, Query: merge(qService, qOracle),
 			Prep: func(e *mc.Env, ctx sdk.Context) {
 				service.PrepForZeroHeightGenesis(ctx, e.Service)
@@ -322,11 +398,11 @@ var _ = strings.ToUpper
 
 // Entry is one module driver of the cross-cutting catalogue (also used by C11).
 type Entry struct {
-	Name    string
-	Mk      func() (*mc.Env, mc.Driver)
-	Modules []string
-	TxSeq   bool
-	Quick   int
+	Name     string
+	Mk       func() (*mc.Env, mc.Driver)
+	Modules  []string
+	TxSeq    bool
+	Quick    int
 	Thorough int
 }
 
